@@ -154,6 +154,10 @@ RULES += ['rule m{ reactant r{ C labeled c1} modify atomtype (c1, %s C)}' % p fo
 # numbers at and beyond the interpreter's integer-conversion limit (sys.get_int_max_str_digits() = 4300 digits)
 BIGNUM = ['rule n{ reactant r{ C labeled c1} modify number of radical (c1, %s) }' % ('9' * n) for n in (4300, 4301, 5000)] + \
          ['rule k{ reactant r{ C labeled c1} constraints{ r.formula is C%s } increase formal charge (c1) decrease formal charge (c1)}' % ('1' * n) for n in (4300, 4301)]
+# deeply nested parentheses in a constraints block (reading time must stay bounded: each level is parsed once)
+DEEP = ['rule k{ reactant r{ C labeled c1} constraints{ %sr.size >1%s } increase formal charge (c1) decrease formal charge (c1)}' % ('( ' * n, ' )' * n) for n in (6, 14, 22, 30)] + \
+       ['rule k{ reactant r{ C labeled c1} constraints{ %sr is cyclic%s && r.size <5 } increase formal charge (c1) decrease formal charge (c1)}' % ('(' * n, ')' * n) for n in (18, 26)] + \
+       ['rule k{ reactant r{ C labeled c1} constraints{ %sr.size >1 } increase formal charge (c1)}' % ('( ' * 24)]
 # several reactants: outside the C16 model (guard) - read by C09 only
 BIMOLECULAR = ['rule two{ reactant r{ C. labeled a} reactant q{ C. labeled b} form bond (a,b) decrease number of radical (a) decrease number of radical (b)}',
           'rule two{ reactant r{ C. labeled a} reactant r{ C. labeled b} form bond (a,b) decrease number of radical (a) decrease number of radical (b)}']
